@@ -3401,7 +3401,7 @@ class StateEngine(object):
                 """
                 event_ids[index] = own_id
 
-            if not error and branch_results.get("terminated"):
+            if branch_results.get("terminated") and error != "Task.Terminated":
                 """
                 This Map or Parallel state has already failed and that failure
                 has been dealt with (failed, retried or caught). A branch that
@@ -3409,7 +3409,14 @@ class StateEngine(object):
                 Parallel state whose own branches were still running, has now
                 finished: its result is of no use and must not complete the
                 failed state (with the error of the failed branch as a result).
+                Nor must a failure of its own fail the state a second time,
+                which would run its Retry or Catch again (or end the execution)
+                while the retried state or the Catch's successor is running.
                 """
+                if error and (previous_state_type == "Task" or
+                              previous_state_type == "Wait"):
+                    # Acknowledged by the Task or Wait state handler itself.
+                    event_ids[index] = None
                 self.check_pending_results(execution_arn)
                 return
 
